@@ -98,7 +98,7 @@ CHECKS = {
    category="exploration",
    text="Total-function oracle over ~190k (quick) generated inputs: repository fixtures with their packages under 0-3 byte/substring mutations and missing/rotated/corrupted packages, grammar-generated documents with mutations, arbitrary Unicode, package byte strings (fixture packages, 16 shaped WAT components, WASI dummies) with mutations, every truncation point, random bytes; plus a nesting ladder run in a supervised worker process so stack overflows are observed from the wait status. Panics are caught and attributed to their site; every span in trees and diagnostic labels must be inside the source on char boundaries; miette must render every diagnostic.",
    note="Termination is not decided (a hang would be reported as inconclusive). Stack exhaustion is judged for the harness release profile on an 8 MiB stack. Unbounded parser recursion is a listed known finding per nesting shape.",
-   technique="property-based testing / fuzzing: mutation-based generation from a seed corpus + grammar generator, crash/total-function oracle with span and render checks, supervised worker for aborts (proptest)",
+   technique="property-based testing / fuzzing: mutation-based generation from a seed corpus + grammar generator, crash/total-function oracle with span and render checks, supervised worker for aborts (proptest); thorough tier adds two coverage-guided libFuzzer campaigns (cargo-fuzz) with the C12/C13/C14 oracles inside the target",
    design="C14"),
  "C15": dict(
    category="exploration",
@@ -134,10 +134,10 @@ def main():
         checks.append({
             "property_id": pid,
             "quick_cmd": f"./run.sh {pid} quick",
-            "thorough_cmd": f"./run.sh {pid} thorough",
+            "thorough_cmd": f"./run.sh {pid} thorough" + (" && ./fuzz.sh frontend C14 150000 && ./fuzz.sh decode C14 300000" if pid == "C14" else ""),
             "evidence_file": f"/verif/evidence/{pid}.json",
             "replay_cmd_template": f"./run.sh {pid} quick --replay {{path}}",
-            "engine": "vcheck",
+            "engine": "c20reg" if pid == "C20" else "vcheck",
             "level_claimed": {"category": c["category"], "text": c["text"], "design_ref": "DESIGN.md §4 " + c["design"]},
             "level_note": c["note"],
             "technique": c["technique"],
@@ -153,8 +153,16 @@ def main():
             "source_commits": HOOK_COMMITS,
             "add_only": True,
         },
-        "engines": [{"name": "vcheck", "path": "/verif/harness/vcheck", "serves_properties": [c["property_id"] for c in checks],
-                     "kind_free_text": "Rust driver: seeded proptest generators sharded over 16 threads, manual shrinking, exhaustive small-scope enumerators, reference models/oracles, evidence + replay writer"}],
+        "engines": [{"name": "vcheck", "path": "/verif/harness/vcheck", "serves_properties": [c["property_id"] for c in checks if c["property_id"] != "C20"],
+                     "kind_free_text": "Rust driver: seeded proptest generators sharded over 16 threads, manual shrinking, exhaustive small-scope enumerators, reference models/oracles, evidence + replay writer"},
+                    {"name": "c20reg", "path": "/verif/harness/c20reg", "serves_properties": ["C20"],
+                     "kind_free_text": "same engine library, own driver linking an in-process Warg registry server"},
+                    {"name": "fs_nowat", "path": "/verif/harness/fs_nowat", "serves_properties": ["C18"],
+                     "kind_free_text": "helper binary: the file-system resolver built without the `wat` feature"},
+                    {"name": "fuzz", "path": "/verif/harness/vcheck/fuzz", "serves_properties": ["C14", "C12", "C13", "C08"],
+                     "kind_free_text": "cargo-fuzz (libFuzzer, ASan) targets `frontend` and `decode` with the property oracles inside the target; run by fuzz.sh as the second half of C14's thorough command"},
+                    {"name": "wac-cli", "path": "/verif/harness/target/wac-cli", "serves_properties": ["C19"],
+                     "kind_free_text": "the `wac` binary under test, built by run.sh from /repo's working tree"}],
         "checks": checks,
         "not_applicable": na,
         "notes": "Exit codes of every command: 0 held, 1 VIOLATION line printed, 2 inconclusive/broken check (never a violation). known_findings.json lists recorded genuine defects.",
